@@ -114,7 +114,8 @@ def gen_let(w, r, cfg):
         pairs[1] = [pairs[0][1], pairs[0][0]]
     how = r.choice(['let', 'let', 'direct', 'fmeth'])
     return dict(op='let', kind=kind, how=how, a=_ri(r), pairs=pairs,
-                keep=r.random() < cfg['keep_rate'])
+                keep=r.random() < cfg['keep_rate'],
+                reuse=_ri(r) if r.random() < 0.3 else None)
 
 
 def gen_cube(w, r, cfg):
